@@ -76,12 +76,18 @@ def expected(v):
 
 
 def tcanon(v):
-    """type-faithful canonical text: bool ≠ int ≠ float ≠ str, floats by exact value (-0.0 = 0.0),
+    """type-faithful canonical text: bool ≠ int ≠ float ≠ str, floats by exact value (-0.0 = 0.0), strings by
+    their code points (JSON text would re-join two lone surrogates into the character they came from),
     dict order kept out of it (a map is a set of entries)"""
 
+    def st(x: str):
+        return x if x.isascii() else {"cp": [ord(c) for c in x]}
+
     def go(x):
-        if x is None or isinstance(x, (bool, str)):
+        if x is None or isinstance(x, bool):
             return x
+        if isinstance(x, str):
+            return st(x)
         if isinstance(x, int):
             return {"i": str(x)}
         if isinstance(x, float):
@@ -89,7 +95,7 @@ def tcanon(v):
         if isinstance(x, (list, tuple)):
             return [go(y) for y in x]
         if isinstance(x, dict):
-            return {"m": sorted(([k if isinstance(k, str) else {"nonstr": repr(k)}, go(y)] for k, y in x.items()),
+            return {"m": sorted(([st(k) if isinstance(k, str) else {"nonstr": repr(k)}, go(y)] for k, y in x.items()),
                                 key=lambda kv: json.dumps(kv[0]))}
         return {"other": type(x).__name__ + ":" + repr(x)[:80]}
 
@@ -105,7 +111,8 @@ LOOKALIKES = ["\\n", "\\t", "\\r", "\\x41", "\\u0041", "\\U00000041", "\\101", "
               "'''", "\"\"", "\\\"\"\"", "r\"\"\"", "\n\"\"\"", "\"\"\"\n"]
 UNI = ["\u00e9", "\u00df", "\u6f22", "\u5b57", "\U0001f600", "\u00a0", "\u2003", "\u0085", "\u2028", "\u2029",
        "\ufeff", "\u200b", "\u0661", "\u0662", "\uff11", "\uff12", "\u0be7", "\U0001d7d8", "\uffff", "\U0010ffff",
-       "\u0130", "\u01c5"]
+       "\u0130", "\u01c5", "\U0001f680", "\U0001f469\u200d\U0001f4bb", "\U00020000", "\U0002a6d6", "\U0001d400",
+       "\U0001d7ce", "\U00010000", "\U000e0041", "a\U0001f600b", "\U0001f600\"", "\\\U0001f600"]
 BLANKS = [" ", "  ", "\t", "\n", "\r\n", "\r", "\u00a0", " \n "]
 WORDS = ["a", "b", "abc", "key", "value", "true", "false", "null", "True", "None", "inf", "nan", "Infinity", "-inf",
          "NaN", "+inf", "infinity", "e", "E", "x", "0x10", "0b1", "0o7", "1_0", "+5", "-", "--1", ".", "1.", ".5", "-.5",
@@ -416,19 +423,118 @@ def route_wf(v):
     return ku.run(go())
 
 
+ABSENT = "__ABSENT__"   # base marker: nothing at the slot's path
+
+
+def valid_slots(v) -> bool:
+    """[[base, written], …]: written values are overlay LEAVES (anything but a non-empty map, which an overlay
+    merges key by key — that is C12's subject), bases are any in-domain value or ABSENT"""
+    return (isinstance(v, list) and all(
+        isinstance(p, list) and len(p) == 2 and in_domain(p[0]) and in_domain(p[1])
+        and not (isinstance(p[1], dict) and p[1]) for p in v))
+
+
+def _slots(v):
+    base = {f"s{i}": b for i, (b, _) in enumerate(v) if b != ABSENT}
+    over = {f"s{i}": w for i, (_, w) in enumerate(v)}
+    return base, over
+
+
+def _read_slots(v, holder):
+    return {f"slot {i} (base {tcanon(b)[:40]})": holder.get(f"s{i}", "<missing>") if isinstance(holder, dict) else "<no map>"
+            for i, (b, w) in enumerate(v)}
+
+
+def _rf_overlay(v, where: str):
+    import celpy
+    import cluster
+    import koreo_util as ku
+    from koreo.resource_function.reconcile import reconcile_resource_function
+
+    ku.reset()
+    cl = cluster.Cluster()
+    base, over = _slots(v)
+
+    async def go():
+        spec = {"apiConfig": {"apiVersion": "v1", "kind": "ConfigMap", "plural": "configmaps", "name": "c11-cm",
+                              "namespace": "ns", "owned": False},
+                "resource": {"spec": {"keep": "kept", **base}}}
+        if where == "overlays":
+            spec["overlays"] = [{"overlay": {"spec": over}}]
+        else:
+            spec["create"] = {"overlay": {"spec": over}}
+        fn = await ku.offer_resource_function("c11-rf", spec)
+        if _obs(fn) != "ok":
+            return ("prepare-" + _obs(fn), None)
+        await reconcile_resource_function(api=cl, location="c11", function=fn, owner=("other", dict(ku.OWNER_REF)),
+                                          inputs=celpy.json_to_cel({}))
+        posts = [e for e in cl.log if e["method"] == "POST"]
+        if len(posts) != 1:
+            return (f"{len(posts)}-POSTs", None)
+        body = posts[0]["body"]
+        if not isinstance(body.get("spec"), dict) or body["spec"].get("keep") != "kept":
+            return ("bad-body", None)
+        return ("ok", _read_slots(v, body["spec"]))
+
+    return ku.run(go())
+
+
+def route_ov_rf(v):
+    """written leaves in `overlays[].overlay` at paths where `resource` already holds something; POST body"""
+    return _rf_overlay(v, "overlays")
+
+
+def route_ov_create(v):
+    """the same through `create.overlay`"""
+    return _rf_overlay(v, "create")
+
+
+def route_ov_vf(v):
+    """written leaves in a ValueFunction `return` applied onto a base that already holds something there"""
+    import celpy
+    import koreo_util as ku
+    from koreo.cel.encoder import convert_bools
+    from koreo.value_function.reconcile import reconcile_value_function
+
+    ku.reset()
+    base, over = _slots(v)
+
+    async def go():
+        fn = await ku.offer_value_function("c11-vf", {"return": {"spec": over}})
+        if _obs(fn) != "ok":
+            return ("prepare-" + _obs(fn), None)
+        out = await reconcile_value_function("c11", fn, celpy.json_to_cel({}),
+                                             value_base=celpy.json_to_cel({"spec": {"keep": "kept", **base}}))
+        if _obs(out) != "ok":
+            return ("reconcile-" + _obs(out), None)
+        got = convert_bools(out)
+        if not isinstance(got, dict) or not isinstance(got.get("spec"), dict) or got["spec"].get("keep") != "kept":
+            return ("bad-shape", None)
+        return ("ok", _read_slots(v, got["spec"]))
+
+    return ku.run(go())
+
+
 ROUTES = {"unit": route_unit, "vf": route_vf, "rf": route_rf, "wf": route_wf}
+OV_ROUTES = {"ov-rf": route_ov_rf, "ov-create": route_ov_create, "ov-vf": route_ov_vf}
+ALL_ROUTES = {**ROUTES, **OV_ROUTES}
 
 
 def judge(route: str, v):
     """the property's clause on one route: None if the value arrived as written, else a description"""
     try:
-        status, got = ROUTES[route](v)
+        status, got = ALL_ROUTES[route](v)
     except Infra:
         raise
     except Exception as e:
         return f"{route}: raised {type(e).__name__}"
     if status != "ok":
         return f"{route}: {status}"
+    if route in OV_ROUTES:
+        for (place, g), (_, w) in zip(got.items(), v):
+            if tcanon(g) != tcanon(expected(w)):
+                return f"{route}: value delivered at {place} differs from the written one"
+        return None
     want = tcanon(expected(v))
     if route == "unit":
         return None if tcanon(got) == want else "unit: delivered value differs from the written one"
@@ -436,6 +542,10 @@ def judge(route: str, v):
         if tcanon(g) != want:
             return f"{route}: value delivered at `{place}` differs from the written one"
     return None
+
+
+def want_of(route: str, v):
+    return [expected(w) for _, w in v] if route in OV_ROUTES else expected(v)
 
 
 # --------------------------------------------------------------------------- shrinking
@@ -478,7 +588,7 @@ def _candidates(v):
                     yield dict(items[:i] + [(c, x)] + items[i + 1:])
 
 
-def shrink(v, fails, budget: int = 600):
+def shrink(v, fails, budget: int = 600, valid=None):
     """greedy descent to a smaller in-domain value on which `fails` still holds; every accepted step
     strictly shortens the canonical text, and at most `budget` candidates are tried"""
     tried = 0
@@ -489,7 +599,7 @@ def shrink(v, fails, budget: int = 600):
         for c in _candidates(v):
             if tried >= budget:
                 break
-            if len(tcanon(c)) >= size or not in_domain(c):
+            if len(tcanon(c)) >= size or not (valid or in_domain)(c):
                 continue
             tried += 1
             try:
@@ -679,12 +789,12 @@ def run(tier: str) -> int:
             v = from_wire(json.load(open(f))["value"])
         except Exception as e:
             raise Infra(f"unreadable corpus file {f}: {e}")
-        for route in ROUTES:
+        for route in (json.load(open(f)).get("routes") or list(ROUTES)):
             bad = judge(route, v)
             ck.evaluated()
             ck.count(f"corpus:{'fail' if bad else 'pass'}")
             if bad:
-                ck.violate({"route": route, "value": to_wire(v), "expected": tcanon(expected(v)), "corpus": f.name}, bad)
+                ck.violate({"route": route, "value": to_wire(v), "expected": tcanon(want_of(route, v)), "corpus": f.name}, bad)
 
     # ---- (b) exact-text differential, and the model's own round trip on the same values
     r = rng("c11-text")
@@ -822,6 +932,44 @@ def search(ck, quick_budget: bool, salt: str = ""):
             ck.count(f"oracle:{route}")
             if in_domain(composite):
                 oracle_batch_e2e(ck, composite, route)
+    # written leaves (empty map / list / string among them) over bases that already hold something there
+    systematic = [[[b, w] for w in EMPTIES[:4]] for b in BASES[:4]] + [[[b, {}] for b in BASES]]
+    n_ov = 60 if quick_budget else 1500
+    for i in range(n_ov + len(systematic)):
+        slots = systematic[i] if i < len(systematic) else gen_slots(r)
+        if not slots or not valid_slots(slots):
+            continue
+        for b, w in slots:
+            ck.count("ov:written-" + ("empty-map" if w == {} and isinstance(w, dict) else "empty-list" if w == [] and isinstance(w, list)
+                                      else "empty-str" if w == "" else type(w).__name__))
+            ck.count("ov:base-" + ("absent" if b == ABSENT else "nonempty-map" if isinstance(b, dict) and b else
+                                   "nonempty-list" if isinstance(b, list) and b else "empty" if b in ({}, [], "") else "scalar"))
+        for route in OV_ROUTES:
+            ck.count(f"oracle:{route}")
+            oracle_batch_e2e(ck, slots, route)
+
+
+BASES = [{"a": 1}, {"a": {"b": [1]}, "c": "x"}, {"": ""}, [1, 2], ["x"], "text", 7, 1.5, True, None, {}, [], "", 0, False, ABSENT]
+EMPTIES = [{}, [], "", 0, False, None, 0.0]
+
+
+def gen_slots(r):
+    """[[base, written leaf], …] — every kind of base under every kind of written leaf, biased to the empty ones"""
+    slots = []
+    for _ in range(r.choice([2, 3, 4, 6])):
+        base = r.choice(BASES) if r.random() < 0.8 else gen_value(r, depth=2)
+        k = r.random()
+        if k < 0.45:
+            w = r.choice(EMPTIES)
+        elif k < 0.8:
+            w = gen_leaf(r)
+        else:
+            w = [gen_value(r, depth=1) for _ in range(r.choice([0, 1, 2]))]
+        if isinstance(w, dict) and w:
+            w = [w]
+        if in_domain(base) and in_domain(w):
+            slots.append([base, w])
+    return slots
 
 
 def oracle_batch_e2e(ck, v, route):
@@ -835,6 +983,13 @@ def oracle_batch_e2e(ck, v, route):
     def fails(x):
         return judge(route, x) is not None
 
+    if route in OV_ROUTES:
+        small = shrink(v, fails, valid=valid_slots)
+        ck.found_by_search = getattr(ck, 'found_by_search', 0) + 1
+        if _fresh(ck, route, small):
+            ck.violate({"route": route, "value": to_wire(small), "expected": tcanon(want_of(route, small))},
+                       judge(route, small) or bad)
+        return
     small = shrink(v, fails)
     ck.found_by_search = getattr(ck, 'found_by_search', 0) + 1
     if not _fresh(ck, route, small):
@@ -847,14 +1002,15 @@ def replay(path: str) -> int:
     rc = 0
     cases = data.get("violations", [])
     if not cases and "value" in data:          # a corpus file
-        cases = [{"case": {"route": rt, "value": data["value"]}} for rt in ROUTES]
+        cases = [{"case": {"route": rt, "value": data["value"]}} for rt in (data.get("routes") or list(ROUTES))]
     for v in cases:
         case = v["case"]
+        route = case["route"]
         value = from_wire(case["value"])
-        bad = judge(case["route"], value)
-        status, got = ROUTES[case["route"]](value)
-        print("replay:", json.dumps({"route": case["route"], "value": case["value"]}, ensure_ascii=True))
-        print("   written :", tcanon(expected(value)))
+        bad = judge(route, value)
+        status, got = ALL_ROUTES[route](value)
+        print("replay:", json.dumps({"route": route, "value": case["value"]}, ensure_ascii=True))
+        print("   written :", tcanon(want_of(route, value)))
         print("   arrived :", status, tcanon(got) if status == "ok" else "")
         print("   verdict :", bad or "as written")
         rc = rc or (1 if bad else 0)
